@@ -194,8 +194,47 @@ def routing_check():
     return n, viol
 
 
+def long_pair(fam, t):
+    """Pair number t of a long history in which (for label-based metrics) every call brings labels never seen before."""
+    if fam == 'regression':
+        return (t * 1.5 - 7.0, t * 0.5 + 1.0)
+    if fam == 'binary':
+        return BIN[t % len(BIN)]
+    if fam == 'dict':
+        p = (t % 10 + 1) / 11
+        return (t % 2, {0: p, 1: 1 - p})
+    lab = t if t % 5 else f"s{t}"
+    return (lab, lab) if t % 2 == 0 else (lab, t + 100000)
+
+
+def long_history(name, n):
+    """Necessary-condition probe beyond the BFS depth: ONE long call history (n calls alternating between the two sharing
+    wrappers, re-validation every 64 calls, for label-based metrics hundreds of distinct labels), the purity oracle of
+    s_step after every call, and the first pairs evaluated again at the end."""
+    st = State(name)
+    hist = []
+    try:
+        for t in range(n):
+            st.pairs = [long_pair(st.fam, t)]
+            s_step(st, ('A' if t % 2 else 'B', 0))
+            hist.append(t)
+            if t % 64 == 63:
+                s_step(st, ('V', 0))
+        for t in (0, 1, 2, 3, n - 1):
+            st.pairs = [long_pair(st.fam, t)]
+            s_step(st, ('A', 0))
+    except Violation as v:
+        return n, [(v.key + '/long-history', f"after a history of {len(hist)} calls with new labels / values every call: {v.what}",
+                    {}, [('long', n)])]
+    return n, []
+
+
 def run_task(task):
     name, depth = task
+    if name.startswith('__long__:'):
+        n, viol = long_history(name.split(':', 1)[1], depth)
+        return dict(task=task, states=1, transitions=n, violations=viol, outcomes={(name, n)}, fam='long-history',
+                    truncated=False)
     if name == '__routing__':
         n, viol = routing_check()
         return dict(task=task, states=1, transitions=n, violations=viol, outcomes={('routing', n)}, fam='routing',
@@ -211,7 +250,8 @@ def run_task(task):
 def main(rep):
     names = discover()
     depth = 6 if rep.tier == 'thorough' else 4
-    tasks = [(n, depth) for n in names] + [('__routing__', 0)]
+    tasks = [(n, depth) for n in names] + [('__routing__', 0)] + \
+        [('__long__:' + n, 2000 if rep.tier == 'thorough' else 400) for n in names]
     results = choice.pmap(run_task, tasks, chunksize=1)
     fams = {}
     for r in results:
@@ -223,7 +263,7 @@ def main(rep):
         rep.mark_nontrivial(r['outcomes'])
         if r['truncated']:
             rep.exhaustive = False
-        if r['fam'] != 'routing' and not r['violations'] and r.get('n_ok', 0) < 2:
+        if r['fam'] not in ('routing', 'long-history') and not r['violations'] and r.get('n_ok', 0) < 2:
             raise choice.HarnessError(f"non-vacuity: {r['task'][0]} produced {r.get('n_ok')} successful loss evaluations")
         if len(rep.samples) < 4 and r['fam'] in ('dict', 'binary', 'regression', 'multiclass') and r['fam'] not in \
                 [s.get('family') for s in rep.samples]:
@@ -232,7 +272,9 @@ def main(rep):
     if len(names) < 30:
         raise choice.HarnessError(f"only {len(names)} river metrics discovered")
     rep.note(metrics=len(names), families={k: len(v) for k, v in fams.items()})
-    rep.assume("metrics are fresh when handed to ixai", "values compared with == (NaN equals NaN); a pair on which a fresh "
+    rep.assume("long histories (400 / 2000 calls, new labels every call) are single deterministic paths: a necessary-condition "
+               "probe beyond the BFS depth, not an exhaustive exploration",
+               "metrics are fresh when handed to ixai", "values compared with == (NaN equals NaN); a pair on which a fresh "
                "metric itself raises is not judged", "river 0.26.1 as installed")
     return rep.finish(
         rule="for each accepted river metric: BFS over all call histories of two sharing wrappers + re-validation with "
@@ -245,6 +287,9 @@ def replay(data):
     name = r['metric']
     if name == '__routing__':
         n, viol = routing_check()
+        v = viol[0][1] if viol else None
+    elif name.startswith('__long__:'):
+        n, viol = long_history(name.split(':', 1)[1], int(r['depth']))
         v = viol[0][1] if viol else None
     else:
         vv = statespace.replay(lambda: State(name), s_step, [tuple(h) for h in r['history']])
